@@ -259,6 +259,34 @@ def r3(run, ctx):
                   (bad[0].ast if bad else n.ast))
     reaps = ctx.nodes_calling(f, [W + 'reap_process'])
     run.need('R3', reaps, 'reap_process call for tracked pids', f)
+    # the status goes to the watcher that owns the pid: the receiver is looked up in the
+    # pid -> watcher map inside the same iteration
+    for rn in reaps:
+        for c in rn.calls():
+            if astq.call_last(c) != 'reap_process' or not isinstance(c.func, ast.Attribute):
+                continue
+            recv = c.func.value
+            ok = False
+            if isinstance(recv, ast.Subscript) and norm_text(recv.slice) == 'pid':
+                ok = True
+            elif isinstance(recv, ast.Name):
+                defs = [x for x in cfg.nodes if x.kind == 'stmt' and isinstance(x.ast, ast.Assign)
+                        and any(isinstance(t, ast.Name) and t.id == recv.id for t in x.ast.targets)
+                        and isinstance(x.ast.value, ast.Subscript) and
+                        norm_text(x.ast.value.slice) == 'pid']
+                wn = [w_[0] for w_ in waits]
+                ok = bool(defs) and cfg.dominates(defs, rn) and \
+                    all(any(cfg.reachable(w0, dn) for w0 in wn) for dn in defs)
+            run.check('R3', ok, 'the collected status is handed to the watcher that owns the pid '
+                      '(looked up in the pid map in the same iteration)', f, rn.ast,
+                      'reap_process is called on %s, which is not the pid-map entry for this pid '
+                      '(a stale loop variable?): the owning watcher never reaps the worker, no '
+                      'reap event is published and the hooks do not run' % norm_text(recv),
+                      construct='reap receiver %s' % ('lookup' if ok else 'not looked up'))
+    maps = [x for x in ctx.live_nodes(f) if x.kind == 'stmt' and isinstance(x.ast, ast.Assign) and
+            isinstance(x.ast.targets[0], ast.Subscript) and
+            norm_text(x.ast.targets[0].slice).endswith('.pid')]
+    run.need('R3', maps, 'pid -> watcher map in Arbiter.reap_processes', f)
     for rn in reaps:
         for c in rn.calls():
             if astq.call_last(c) == 'reap_process':
@@ -408,6 +436,15 @@ def r6(run, ctx):
         r3_ = reach_under(cfg, h, hook_false, avoid=kn, labels_excluded=('exc',))
         run.check('R6', cfg.exit.id not in r3_, 'a refused child is terminated', f, h.ast)
         for s in kills:
+            loops_ = [t for t in cfg.nodes if t.kind == 'test' and isinstance(t.stmt, ast.While)]
+            for rn in rem:
+                run.check('R6', s.node.id not in cfg.reach(rn, avoid=loops_),
+                          'the refused child is terminated '
+                          'while it is still in the table (send_signal only signals tracked pids)',
+                          f, s.node.ast, 'the entry is deleted before kill_process runs: '
+                          'Watcher.send_signal ignores an untracked pid, so neither the stop '
+                          'signal nor SIGKILL is ever sent to the refused child',
+                          construct='kill after untracking')
             run.check('R6', not is_discarded(s.node, s.call), 'the termination of the refused '
                       'child is awaited before it is untracked', f, s.node.ast,
                       'the kill_process future is discarded and the entry deleted at once: a '
